@@ -11,6 +11,7 @@ use crypto_bigint::subtle::{
     Choice, ConditionallyNegatable, ConditionallySelectable, ConstantTimeEq, ConstantTimeGreater, ConstantTimeLess,
     CtOption,
 };
+#[cfg(crypto_bigint_verif)]
 use crypto_bigint::verif_hooks as hooks;
 use crypto_bigint::{
     BitOps, BoxedUint, CheckedMul, CheckedSub, ConstCtOption, ConstantTimeSelect, Int, Limb, NonZero, Odd,
@@ -150,11 +151,13 @@ fn shr<const N: usize>(a: &[&str]) -> Option<String> {
     let (x, s) = (arg!(uint::<N>(a[1])), arg!(dec32(a[2])));
     Some(co(x.overflowing_shr(s)))
 }
+#[cfg(crypto_bigint_verif)]
 fn shl_limb<const N: usize>(a: &[&str]) -> Option<String> {
     let (x, s) = (arg!(uint::<N>(a[1])), arg!(dec32(a[2])));
     let (v, c) = hooks::uint_shl_limb(&x, s);
     Some(format!("{} {}", uhex(&v), lhex(c)))
 }
+#[cfg(crypto_bigint_verif)]
 fn shr1<const N: usize>(a: &[&str]) -> Option<String> {
     let x = arg!(uint::<N>(a[1]));
     Some(uhex(&hooks::uint_shr1(&x)))
@@ -181,6 +184,7 @@ fn modarith<const N: usize>(a: &[&str]) -> Option<String> {
     let (x, y, p) = (arg!(uint::<N>(a[1])), arg!(uint::<N>(a[2])), arg!(uint::<N>(a[3])));
     Some(format!("{} {} {}", uhex(&x.add_mod(&y, &p)), uhex(&x.sub_mod(&y, &p)), uhex(&x.neg_mod(&p))))
 }
+#[cfg(crypto_bigint_verif)]
 fn sub_mod_with_carry<const N: usize>(a: &[&str]) -> Option<String> {
     let (x, c, y, p) = (arg!(uint::<N>(a[1])), arg!(dec(a[2])), arg!(uint::<N>(a[3])), arg!(uint::<N>(a[4])));
     Some(uhex(&hooks::uint_sub_mod_with_carry(&x, Limb(c as Word), &y, &p)))
@@ -219,6 +223,7 @@ where
     Some(format!("{} {} {} {} {}", uhex(&c), uhex(&lo), uhex(&hi), uhex(&r), uhex(&w)))
 }
 
+#[cfg(crypto_bigint_verif)]
 fn reciprocal(a: &[&str]) -> Option<String> {
     Some(hexw(hooks::reciprocal(arg!(word(a[0])))))
 }
@@ -230,6 +235,11 @@ fn div_rem_limb<const N: usize>(a: &[&str]) -> Option<String> {
 fn div_rem<const N: usize>(a: &[&str]) -> Option<String> {
     let (x, d) = (arg!(uint::<N>(a[1])), arg!(uint::<N>(a[2])));
     let (q, r) = x.div_rem(&arg!(Option::from(NonZero::new(d))));
+    Some(format!("{} {}", uhex(&q), uhex(&r)))
+}
+fn div_rem_vartime<const N: usize>(a: &[&str]) -> Option<String> {
+    let (x, d) = (arg!(uint::<N>(a[1])), arg!(uint::<N>(a[2])));
+    let (q, r) = x.div_rem_vartime(&arg!(Option::from(NonZero::new(d))));
     Some(format!("{} {}", uhex(&q), uhex(&r)))
 }
 fn sqrt<const N: usize>(a: &[&str]) -> Option<String> {
@@ -410,18 +420,21 @@ fn boxed_inv_mod2k(a: &[&str]) -> Option<String> {
     Some(format!("{} {} {} {}", bhexlen(&r), choice(rs), bhexlen(&v), choice(vs)))
 }
 
+#[cfg(crypto_bigint_verif)]
 fn boxed_shr1(a: &[&str]) -> Option<String> {
     let n = arg!(dec(a[0]));
     Some(bhexlen(&hooks::boxed_shr1(&arg!(boxed(a[1], n)))))
 }
 
 // ---- safegcd (hooks): unsaturated integers are arrays of 62-bit limbs, printed / parsed as 64-bit words
+#[cfg(crypto_bigint_verif)]
 fn arr<const U: usize>(s: &str) -> Option<[u64; U]> {
     let w = hex_words(s, U)?;
     let mut a = [0u64; U];
     a.copy_from_slice(&w);
     Some(a)
 }
+#[cfg(crypto_bigint_verif)]
 fn unsat<const U: usize>(a: &[&str]) -> Option<String> {
     use hooks::safegcd as sg;
     let (x, y, o) = (arg!(arr::<U>(a[1])), arg!(arr::<U>(a[2])), arg!(word(a[3])));
@@ -438,17 +451,20 @@ fn unsat<const U: usize>(a: &[&str]) -> Option<String> {
         words_hex(&sel) // `UnsatInt::select` has no hook of its own: exercised through inv_odd_mod / gcd
     ))
 }
+#[cfg(crypto_bigint_verif)]
 fn unsat_conv<const N: usize, const U: usize>(a: &[&str]) -> Option<String> {
     use hooks::safegcd as sg;
     let x = arg!(uint::<N>(a[1]));
     let c: [u64; U] = sg::unsat_from_uint::<N, U>(&x);
     Some(format!("{} {}", words_hex(&c), uhex(&sg::unsat_to_uint::<N, U>(c))))
 }
+#[cfg(crypto_bigint_verif)]
 fn jump(a: &[&str]) -> Option<String> {
     let (f, g, d) = (arg!(word(a[0])), arg!(word(a[1])), arg!(word(a[2])));
     let (delta, t) = hooks::safegcd::jump(&[f], &[g], d as i64);
     Some(format!("{:x} {:x} {:x} {:x} {:x}", delta as u64, t[0][0] as u64, t[0][1] as u64, t[1][0] as u64, t[1][1] as u64))
 }
+#[cfg(crypto_bigint_verif)]
 fn fgde<const U: usize>(a: &[&str]) -> Option<String> {
     use hooks::safegcd as sg;
     let (f, g, d, e, m) = (arg!(arr::<U>(a[1])), arg!(arr::<U>(a[2])), arg!(arr::<U>(a[3])), arg!(arr::<U>(a[4])), arg!(arr::<U>(a[5])));
@@ -458,6 +474,7 @@ fn fgde<const U: usize>(a: &[&str]) -> Option<String> {
     let (d1, e1) = sg::de(m, inv, t, d, e);
     Some(format!("{} {} {} {}", words_hex(&f1), words_hex(&g1), words_hex(&d1), words_hex(&e1)))
 }
+#[cfg(crypto_bigint_verif)]
 fn divsteps<const U: usize>(a: &[&str]) -> Option<String> {
     let (e, f0, g) = (arg!(arr::<U>(a[1])), arg!(arr::<U>(a[2])), arg!(arr::<U>(a[3])));
     let (d, f) = hooks::safegcd::divsteps(e, f0, g, arg!(word(a[4])) as i64);
@@ -477,6 +494,18 @@ macro_rules! inv_gcd {
         }
     };
 }
+macro_rules! inv_mod_fn {
+    ($f:ident, $n:literal) => {
+        fn $f(a: &[&str]) -> Option<String> {
+            let (m, v) = (arg!(uint::<$n>(a[1])), arg!(uint::<$n>(a[2])));
+            Some(co(v.inv_mod(&m)))
+        }
+    };
+}
+inv_mod_fn!(inv_mod_1, 1);
+inv_mod_fn!(inv_mod_2, 2);
+inv_mod_fn!(inv_mod_3, 3);
+inv_mod_fn!(inv_mod_4, 4);
 inv_gcd!(inv_odd_mod_1, gcd_1, 1);
 inv_gcd!(inv_odd_mod_2, gcd_2, 2);
 inv_gcd!(inv_odd_mod_3, gcd_3, 3);
@@ -513,11 +542,13 @@ fn rem_limb<const N: usize>(a: &[&str]) -> Option<String> {
     let (x, d) = (arg!(uint::<N>(a[1])), arg!(limb(a[2])));
     Some(lhex(x.rem_limb(arg!(Option::from(NonZero::new(d))))))
 }
+#[cfg(crypto_bigint_verif)]
 fn mac_by_limb<const N: usize>(a: &[&str]) -> Option<String> {
     let (x, y, c, d) = (arg!(uint::<N>(a[1])), arg!(uint::<N>(a[2])), arg!(limb(a[3])), arg!(limb(a[4])));
     let (v, cy) = hooks::uint_mac_by_limb(&x, &y, c, d);
     Some(format!("{} {}", uhex(&v), lhex(cy)))
 }
+#[cfg(crypto_bigint_verif)]
 fn monty_params<const N: usize, const W: usize>(a: &[&str]) -> Option<String>
 where
     Uint<N>: crypto_bigint::Concat<Output = Uint<W>>,
@@ -528,6 +559,7 @@ where
     let (one, r2, r3, ni, mlz) = params.verif_fields();
     Some(format!("{} {} {} {} {:x}", uhex(&one), uhex(&r2), uhex(&r3), lhex(ni), mlz))
 }
+#[cfg(crypto_bigint_verif)]
 fn div_by_2<const N: usize>(a: &[&str]) -> Option<String> {
     let (x, m) = (arg!(uint::<N>(a[1])), arg!(uint::<N>(a[2])));
     let bx = arg!(boxed(a[1], N));
@@ -538,6 +570,7 @@ fn div_by_2<const N: usize>(a: &[&str]) -> Option<String> {
         bhex(&hooks::div_by_2_boxed(&bx, &arg!(Option::from(Odd::new(bm)))))
     ))
 }
+#[cfg(crypto_bigint_verif)]
 fn lincomb<const N: usize>(a: &[&str]) -> Option<String> {
     let (mlz, m) = (arg!(dec32(a[1])), arg!(uint::<N>(a[2])));
     let params = MontyParams::new_vartime(arg!(Option::from(Odd::new(m))));
@@ -601,7 +634,11 @@ fn random_mod<const N: usize>(a: &[&str]) -> Option<String> {
 }
 
 pub fn dispatch(op: &str, a: &[&str]) -> Option<String> {
-    let name = op.strip_prefix("c01.leak.").or_else(|| op.strip_prefix("c01.hook."))?;
+    // crate-internal functions behind `crypto_bigint::verif_hooks` (only with `--cfg crypto_bigint_verif`)
+    if let Some(name) = op.strip_prefix("c01.hook.") {
+        return hook_dispatch(name, a);
+    }
+    let name = op.strip_prefix("c01.leak.")?;
     let n = || a.first().and_then(|s| dec(s));
     let need = |k: usize| a.len() == k;
     macro_rules! chk {
@@ -620,11 +657,8 @@ pub fn dispatch(op: &str, a: &[&str]) -> Option<String> {
         "shr_vartime" => { chk!(3); with_w!(arg!(n()), shr_vartime, a) }
         "shl" => { chk!(3); with_w!(arg!(n()), shl, a) }
         "shr" => { chk!(3); with_w!(arg!(n()), shr, a) }
-        "shl_limb" => { chk!(3); with_w!(arg!(n()), shl_limb, a) }
-        "shr1" => { chk!(2); with_w!(arg!(n()), shr1, a) }
         "bits" => { chk!(4); with_w!(arg!(n()), bits, a) }
         "modarith" => { chk!(4); with_w!(arg!(n()), modarith, a) }
-        "sub_mod_with_carry" => { chk!(5); with_w!(arg!(n()), sub_mod_with_carry, a) }
         "split_mul" => {
             chk!(4);
             match (arg!(n()), arg!(dec(a[1]))) {
@@ -670,9 +704,9 @@ pub fn dispatch(op: &str, a: &[&str]) -> Option<String> {
                 _ => Some("unsupported-width".to_string()),
             }
         }
-        "reciprocal" => { chk!(1); reciprocal(a) }
         "div_rem_limb" => { chk!(3); with_w!(arg!(n()), div_rem_limb, a) }
         "div_rem" => { chk!(3); with_w!(arg!(n()), div_rem, a) }
+        "div_rem_vartime" => { chk!(3); with_w!(arg!(n()), div_rem_vartime, a) }
         "sqrt" => { chk!(2); with_w!(arg!(n()), sqrt, a) }
         "inv_mod2k" => { chk!(3); with_small!(arg!(n()), inv_mod2k, a) }
         "monty" => { chk!(5); with_small!(arg!(n()), monty, a) }
@@ -718,6 +752,77 @@ pub fn dispatch(op: &str, a: &[&str]) -> Option<String> {
         }
         "mul_mod_vartime" => { chk!(4); with_small!(arg!(n()), mul_mod_vartime, a) }
         "rem_limb" => { chk!(3); with_w!(arg!(n()), rem_limb, a) }
+        "multi_exp" => {
+            if a.len() < 5 || a.len() % 2 == 0 {
+                return Some(BAD.to_string());
+            }
+            with_small!(arg!(n()), multi_exp, a)
+        }
+        "random_mod" => {
+            if a.len() < 3 {
+                return Some(BAD.to_string());
+            }
+            with_small!(arg!(n()), random_mod, a)
+        }
+        "inv_odd_mod" => {
+            chk!(3);
+            match arg!(n()) {
+                1 => inv_odd_mod_1(a),
+                2 => inv_odd_mod_2(a),
+                3 => inv_odd_mod_3(a),
+                4 => inv_odd_mod_4(a),
+                6 => inv_odd_mod_6(a),
+                8 => inv_odd_mod_8(a),
+                _ => Some("unsupported-width".to_string()),
+            }
+        }
+        "inv_mod" => {
+            chk!(3);
+            match arg!(n()) {
+                1 => inv_mod_1(a),
+                2 => inv_mod_2(a),
+                3 => inv_mod_3(a),
+                4 => inv_mod_4(a),
+                _ => Some("unsupported-width".to_string()),
+            }
+        }
+        "gcd" => {
+            chk!(3);
+            match arg!(n()) {
+                1 => gcd_1(a),
+                2 => gcd_2(a),
+                3 => gcd_3(a),
+                4 => gcd_4(a),
+                6 => gcd_6(a),
+                8 => gcd_8(a),
+                _ => Some("unsupported-width".to_string()),
+            }
+        }
+        _ => None,
+    }
+}
+
+/// without the hook forwarders every `c01.hook.*` line answers `hook-unavailable` (the runner drops those lines)
+#[cfg(not(crypto_bigint_verif))]
+fn hook_dispatch(_name: &str, _a: &[&str]) -> Option<String> {
+    Some(crate::util::HOOK_UNAVAILABLE.to_string())
+}
+#[cfg(crypto_bigint_verif)]
+fn hook_dispatch(name: &str, a: &[&str]) -> Option<String> {
+    let n = || a.first().and_then(|s| dec(s));
+    let need = |k: usize| a.len() == k;
+    macro_rules! chk {
+        ($k:expr) => {
+            if !need($k) {
+                return Some(BAD.to_string());
+            }
+        };
+    }
+    match name {
+        "shl_limb" => { chk!(3); with_w!(arg!(n()), shl_limb, a) }
+        "shr1" => { chk!(2); with_w!(arg!(n()), shr1, a) }
+        "sub_mod_with_carry" => { chk!(5); with_w!(arg!(n()), sub_mod_with_carry, a) }
+        "reciprocal" => { chk!(1); reciprocal(a) }
         "mac_by_limb" => { chk!(5); with_w!(arg!(n()), mac_by_limb, a) }
         "monty_params" => {
             chk!(2);
@@ -737,18 +842,6 @@ pub fn dispatch(op: &str, a: &[&str]) -> Option<String> {
                 return Some(BAD.to_string());
             }
             with_small!(arg!(n()), lincomb, a)
-        }
-        "multi_exp" => {
-            if a.len() < 5 || a.len() % 2 == 0 {
-                return Some(BAD.to_string());
-            }
-            with_small!(arg!(n()), multi_exp, a)
-        }
-        "random_mod" => {
-            if a.len() < 3 {
-                return Some(BAD.to_string());
-            }
-            with_small!(arg!(n()), random_mod, a)
         }
         "boxed_shr1" => { chk!(2); boxed_shr1(a) }
         "unsat" => {
@@ -791,30 +884,6 @@ pub fn dispatch(op: &str, a: &[&str]) -> Option<String> {
                 2 => divsteps::<2>(a),
                 3 => divsteps::<3>(a),
                 4 => divsteps::<4>(a),
-                _ => Some("unsupported-width".to_string()),
-            }
-        }
-        "inv_odd_mod" => {
-            chk!(3);
-            match arg!(n()) {
-                1 => inv_odd_mod_1(a),
-                2 => inv_odd_mod_2(a),
-                3 => inv_odd_mod_3(a),
-                4 => inv_odd_mod_4(a),
-                6 => inv_odd_mod_6(a),
-                8 => inv_odd_mod_8(a),
-                _ => Some("unsupported-width".to_string()),
-            }
-        }
-        "gcd" => {
-            chk!(3);
-            match arg!(n()) {
-                1 => gcd_1(a),
-                2 => gcd_2(a),
-                3 => gcd_3(a),
-                4 => gcd_4(a),
-                6 => gcd_6(a),
-                8 => gcd_8(a),
                 _ => Some("unsupported-width".to_string()),
             }
         }
